@@ -18,7 +18,7 @@ LEVEL = "exploration"
 RULE = (
     "programs = (annotation AST, layout, spelling): depth-1 annotations (atoms and every unary/binary constructor over "
     "atoms) are enumerated completely in both tiers, depth-2 (constructors over depth-1) sampled in quick and enumerated "
-    "in thorough, depth-3 sampled; layouts: single class, inherited field, override of a property field, override of a "
+    "in thorough, depth-3 sampled; layouts: single class, init=False field, field with compare/repr/kw_only/hash flags, inherited field, override of a property field, override of a "
     "child field; spellings: plain, `from __future__ import annotations`, whole-annotation string, nested string forward "
     "reference; forward references to a class defined later in the module; non-trivial = annotation with at least one "
     "constructor; distinct = distinct (annotation source, layout, spelling)"
@@ -27,13 +27,13 @@ ASSUMPTIONS = [
     "an exception raised by mashumaro's code generator while the class is being defined means the class cannot exist: no verdict (counted)",
     "first use = first instantiation, performed after all classes of the module (incl. forward-referenced ones) are defined",
 ]
-MUST_SEE = ["reject_at_first_use", "reject_at_definition", "override_changes_category", "newtype_node_in_tuple", "none_annotation", "child_verdicts", "prop_verdicts", "forward_refs", "postponed", "inherited", "reuse_after_rejection"]
+MUST_SEE = ["init_false_fields", "reject_at_first_use", "reject_at_definition", "override_changes_category", "newtype_node_in_tuple", "none_annotation", "child_verdicts", "prop_verdicts", "forward_refs", "postponed", "inherited", "reuse_after_rejection"]
 CONFIG = {
     "quick": {"shards": 16, "d2_sample": 200, "d3_sample": 40, "layouts_per_ann": 3, "watchdog_s": 600},
     "thorough": {"shards": 32, "d2_sample": -1, "d3_sample": 2000, "layouts_per_ann": 99, "watchdog_s": 3400},
 }
 
-LAYOUTS = ["single", "inherit", "override_prop", "override_child"]
+LAYOUTS = ["single", "inherit", "override_prop", "override_child", "noninit", "flags"]
 
 
 def spellings_for(a):
@@ -59,6 +59,11 @@ def class_sources(P, k, a, layout, spelling):
     deco = "@dataclass(frozen=True)\n"
     if layout == "single":
         return [(T, f"{deco}class {T}(ASTNode):\n    x: {ann} = {dflt}\n    y: int = 0\n", True)]
+    if layout == "noninit":
+        # a field that is not a constructor argument is classified (and validated) like any other
+        return [(T, f"{deco}class {T}(ASTNode):\n    y: int = 0\n    x: {ann} = field(default={dflt}, init=False)\n", True)]
+    if layout == "flags":
+        return [(T, f"{deco}class {T}(ASTNode):\n    y: int = 0\n    x: {ann} = field(default={dflt}, compare=False, repr=False, kw_only=True, hash=False)\n", True)]
     if layout == "inherit":
         return [
             (B, f"{deco}class {B}(ASTNode):\n    x: {ann} = {dflt}\n", False),
@@ -123,6 +128,8 @@ def run_batch(ctx, P, items, postponed_module: bool):
             ctx.count("postponed")
         if layout == "inherit":
             ctx.count("inherited")
+        if layout == "noninit":
+            ctx.count("init_false_fields")
         if a == ("none",):
             ctx.count("none_annotation")
         if a[0] in ("tvar", "tfix") and any(x == ("nt", "NTnode") for x in AG.walk(a)):
